@@ -57,9 +57,12 @@ type ChildOpts struct {
 	StopAfter string          // stop after this unit has run (re-execution of a shard prefix)
 	PerCase   bool            // journal every guarded call before making it
 	Skip      map[string]bool // units to skip (already done or poisoned)
-	Tag       string          // file name tag (distinguishes reruns)
-	BudgetS   float64
-	MemLimit  uint64
+	// SlowCapped: this shard has already abandoned several calls as too slow (CallSlowOK); from now on a unit that
+	// reaches another such call is abandoned at once instead of burning the budget again
+	SlowCapped bool
+	Tag        string // file name tag (distinguishes reruns)
+	BudgetS    float64
+	MemLimit   uint64
 }
 
 // Ctx is handed to Property.Run in a child.
@@ -178,7 +181,11 @@ func RunChild(o ChildOpts) {
 		sampleBy: map[string]int{}, violKeys: map[string]int{}, streams: map[string]*bufio.Writer{}}
 	c.budgetNs = int64(o.BudgetS * 1e9)
 	c.budgetCur.Store(c.budgetNs)
+	// a unit of the quick tier takes seconds; one that has used 400 CPU-s (thorough: 2400) is abandoned (INCONCLUSIVE)
 	c.unitLimit = int64(2400 * 1e9)
+	if o.Tier == "quick" {
+		c.unitLimit = int64(400 * 1e9)
+	}
 	if v := os.Getenv("VERIF_UNIT_BUDGET_S"); v != "" {
 		if f, err := strconv.ParseFloat(v, 64); err == nil && f > 0 {
 			c.unitLimit = int64(f * 1e9)
@@ -263,6 +270,13 @@ func (c *Ctx) watchdog() {
 			charged = 0
 		}
 		lastSeq, lastCPU = seq, now
+		if c.callSoft.Load() && charged > c.budgetCur.Load()/3 && c.active.Load() && c.callSeq.Load() == seq {
+			// calls that may legitimately be slow get a third of the budget: every correct call of these workloads
+			// takes milliseconds, and an abandoned call is not a verdict
+			c.write(Rec{T: "slow", Unit: c.curUnit, Key: c.curKey(), CPU: float64(charged) / 1e9})
+			c.flush()
+			os.Exit(ExitSlow)
+		}
 		if charged > c.budgetCur.Load() && c.active.Load() && c.callSeq.Load() == seq {
 			key := c.curKey()
 			if c.callSoft.Load() {
@@ -348,6 +362,12 @@ func (c *Ctx) Unit(name string, f func()) {
 					ok = true
 					return
 				}
+				if _, isSkip := r.(slowSkipSentinel); isSkip {
+					c.active.Store(false)
+					c.write(Rec{T: "slowskip", Unit: name})
+					ok = true
+					return
+				}
 				c.active.Store(false)
 				c.write(Rec{T: "harness_panic", Unit: name, Msg: fmt.Sprint(r), Observed: trimStack(string(debug.Stack()))})
 				ok = false
@@ -408,7 +428,14 @@ func (c *Ctx) Call(key string, f func()) (pi *PanicInfo) {
 // "calls_abandoned_as_too_slow(not judged)"), it is not reported as a violation - slow is not wrong, and which
 // inputs are slow depends on incidental choices of the implementation.  Hangs are still caught on the small inputs
 // of the same workloads, which go through Call.
+type slowSkipSentinel struct{}
+
 func (c *Ctx) CallSlowOK(key string, f func()) (pi *PanicInfo) {
+	if c.o.SlowCapped {
+		// the tree under test is slow on this kind of input again and again: stop paying for it (the rest of this
+		// unit is not judged; the supervisor counts the unit)
+		panic(slowSkipSentinel{})
+	}
 	c.callSoft.Store(true)
 	defer c.callSoft.Store(false)
 	return c.CallN(key, -1, f)
